@@ -58,7 +58,7 @@ def run(tier):
             if rc0 != 0 or any('"out":"setup"' in ln for ln in f):
                 raise MachineryError("generated configuration refused at set-up in the sequential reference run (generator out of domain)")
         c.drive(exe, ["--script", script, "--threads", nthreads, "--rounds", rounds, "--seed", SEED + idx, "--scratch", scratch(c)], tr, tag, timeout=900,
-                env={"TSAN_OPTIONS": "halt_on_error=1:exitcode=66:report_signal_unsafe=0:history_size=4"})
+                env={"TSAN_OPTIONS": "halt_on_error=1:exitcode=66:report_signal_unsafe=0:history_size=4:suppressions=" + os.path.join(ROOT, "harness", "tsan.supp")})
         with open(tr) as f:
             bad = [ln for ln in f if '"out":"setup"' in ln]
         if bad:
